@@ -94,6 +94,24 @@ Definition oracle (x : case) : bool :=
           | None => false
           end
       | _ => true
+      end &&
+      (* completeness ("exactly when"): a prefix that parses, declares a size within the capacity, and data for which the table has a
+         digest that fits and makes a legal CID under the prefix's version and codec: the rebuild must succeed with exactly that CID —
+         whatever the data is (the empty string included) *)
+      match prefix_from_bytes pb with
+      | Some p =>
+          if cap <? p_size p then true else
+          match raw_for data raw (p_code p) data with
+          | Some dig =>
+              if len dig <=? cap then
+                match cid_new (p_ver p) (p_codec p) (MkMh (p_code p) dig) with
+                | inl c => match r with ToOk c' => cid_eqb c c' | _ => false end
+                | inr _ => true
+                end
+              else true
+          | None => true
+          end
+      | None => true
       end
   | (_, PoPanic) => false
   | _ => true
